@@ -4,5 +4,5 @@ package engines
 import "verifsim/core"
 
 func All() []core.Engine {
-	return []core.Engine{C04{}, C05{}, C12{}, C13{}, C14{}, C18{}}
+	return []core.Engine{C04{}, C05{}, C12{}, C13{}, C14{}, C17{}, C18{}}
 }
